@@ -155,6 +155,15 @@ func fromJSON(ctx context.Context, services coreiface.CoreAPI, jsonLog *iface.JS
 
 	sorting.Sort(sorting.Compare, entries, false)
 
+	// the fetcher may deliver more than the requested length, keep the most recent ones
+	if options.Length != nil && *options.Length > -1 {
+		if *options.Length == 0 {
+			entries = []iface.IPFSLogEntry{}
+		} else {
+			entries = entrySlice(entries, -*options.Length)
+		}
+	}
+
 	return &Snapshot{
 		ID:     jsonLog.ID,
 		Heads:  jsonLog.Heads,
